@@ -167,7 +167,7 @@ func run(c *mon.Ctx) {
 			s.Descs = append(s.Descs, d)
 			if len(s.Section())-3 > 4093 {
 				s.Descs = s.Descs[:len(s.Descs)-1]
-				if rest := want - (len(s.Section()) - 3) - 2; rest >= 0 && rest <= 255 {
+				if rest := want - (len(s.Section()) - 3) - 2; rest >= 4 && rest <= 255 {
 					s.Descs = append(s.Descs, ref.SegDesc{Foreign: true, Tag: 0x80, Body: r.Bytes(rest)})
 				}
 				break
@@ -195,14 +195,18 @@ func run(c *mon.Ctx) {
 		}
 		c.Class(fmt.Sprintf("large/len=%d/descs=%d/comps=%v", (len(sec)-3)/256, len(s.Descs)/4, len(s.Comps) > 3))
 	})
-	// rejection of a time_signal without a time: any error is accepted, a value is not
+	// a time_signal without a specified time is outside the quantified syntax and is not one of the four
+	// rejection classes: the statement fixes no outcome (the first version of this check demanded a
+	// rejection; DESIGN section 7). It is still decoded, so that whatever happens is observed and counted.
 	c.Stream("time-signal-without-time", c.N(200, 5000), func(i int, r *gen.Rand) {
 		s := ref.GenSig(r, false)
 		s.Cmd, s.TSHas = 6, false
 		x, err := scte35.NewSCTE35(s.Payload())
 		c.Eval(1)
-		if err == nil || x != nil {
-			c.Fail("reject:time-signal-without-time", "a time_signal without a specified time was accepted", wit{mon.Hex(s.Payload()), s35.Shape(&s), ""})
+		if err != nil || x == nil {
+			c.Count("time_signal_without_time.rejected")
+		} else {
+			c.Count("time_signal_without_time.accepted")
 		}
 	})
 }
